@@ -6,6 +6,11 @@
    PARTIAL in one respect, stated openly: values are natural numbers here; that arguments and results of every shape cross
    unchanged (immutables) or as references to the same object (everything else) is C03/C04's theorems plus this check's
    differential run, not part of this model. *)
+(* SCOPE. In the model an exception has one class and a call site either catches every failure of its callee or none. What the
+   model therefore does not say: (a) class-selective catching of exception classes that do not cross unchanged (user-defined classes
+   under the default configuration are replaced by a generic stand-in: C09's gating clause; for C01 that is known finding F46, found
+   by the harness's second phase); (b) that a result/argument of any SHAPE is the same value or a reference to the same object
+   (C03/C04; run differentially here). *)
 From V Require Import lib.Base model.CallTree proofs.CallTreeP proofs.CallTreeTie gen.Gen_calls.
 From Coq Require Import Relations.
 
